@@ -1,6 +1,7 @@
 import Pi2.Codec
 import Pi2.Sound.Machine
 import Pi2.Gen.Schemas
+import Pi2.RustTie
 /-!
 # C01 — checker soundness
 
@@ -125,5 +126,20 @@ theorem concl_invalid : ¬ Valid conclP := by
 theorem pinned_substitution_unsound :
     ∃ X plug p r, applySSubstPinned X plug p = some r ∧ Valid p ∧ ¬ Valid r :=
   ⟨0, evar 0, premiseP, conclP, pinned_accepts, premise_valid, concl_invalid⟩
+
+/-- the four syntactic judgements as written in `rust/src/lib.rs` (translated on every run) are the model's -/
+theorem rust_judgements_tied :
+    Gen.Rust.translated = true ∧
+    (∀ p e, Gen.Rust.e_fresh p e = Pat.eFresh e p) ∧ (∀ p s, Gen.Rust.s_fresh p s = Pat.sFresh s p) ∧
+    (∀ p s, Gen.Rust.positive p s = Pat.pos s p) ∧ (∀ p s, Gen.Rust.negative p s = Pat.ng s p) :=
+  ⟨RustTie.translated, RustTie.e_fresh_eq, RustTie.s_fresh_eq, RustTie.positive_eq, RustTie.negative_eq⟩
+
+/-- `apply_esubst` / `apply_ssubst` as written in `rust/src/lib.rs` (translated on every run, a panic is `none`) are
+the functions whose semantic substitution lemmas (`applyESubst_sem`, `applySSubst_sem`) the soundness proof uses -/
+theorem rust_substitution_tied :
+    Gen.Rust.substTranslated = true ∧
+    (∀ p x plug, Gen.Rust.apply_esubst p x plug = Pat.applyESubst x plug p) ∧
+    (∀ p x plug, Gen.Rust.apply_ssubst p x plug = Pat.applySSubst x plug p) :=
+  ⟨RustTie.substTranslated, RustTie.apply_esubst_eq, RustTie.apply_ssubst_eq⟩
 
 end C01
